@@ -125,6 +125,13 @@ class Scheduler:
                         return c
             if cur is not None and cur in candidates:
                 return cur
+            first = self.strategy.get("first")
+            if first is not None and not getattr(self, "_first_done", False):
+                # which thread gets the solo prefix (the one that is then pre-empted at `at`)
+                self._first_done = True
+                for c in candidates:
+                    if c.tid == first:
+                        return c
             return candidates[0]
         raise ValueError(k)
 
